@@ -282,7 +282,7 @@ func gen(kind string, big bool) func(t *rapid.T) kvh.Case {
 		cmps := dom.AllCmps
 		if kind == kvh.TreeBidi {
 			cmps = dom.TotalCmps
-			c.VCmp = dom.TotalCmps[rapid.IntRange(0, 2).Draw(t, "vcmp")]
+			c.VCmp = dom.TotalCmps[rapid.IntRange(0, len(dom.TotalCmps)-1).Draw(t, "vcmp")]
 		}
 		// natural order most likely (sorted/reverse workloads are meaningful there);
 		// the 5-class comparator rarely, since it caps n at 5
